@@ -83,11 +83,18 @@ class Image(UserAttribute):
         self.version = 1
         self.iencoding = 1
         self.image = bytearray()
+        # the image header as received, when this subpacket was parsed
+        self._imghdr = None
 
     def __bytearray__(self):
         _bytes = super(Image, self).__bytearray__()
 
-        if self.version == 1:
+        if self._imghdr is not None:
+            # a parsed image header is written as it was read: only version 1 is defined,
+            # and the header's own first two octets say how long it is
+            _bytes += self._imghdr
+
+        elif self.version == 1:
             # v1 image header length is always 16 bytes
             # and stored little-endian due to an 'historical accident'
             _bytes += struct.pack('<hbbiii', 16, self.version, self.iencoding, 0, 0, 0)
@@ -98,9 +105,15 @@ class Image(UserAttribute):
     def parse(self, packet):
         super(Image, self).parse(packet)
 
-        with memoryview(packet) as _head:
-            _, self.version, self.iencoding, _, _, _ = struct.unpack_from('<hbbiii', _head[:16].tobytes())
-        del packet[:16]
+        blen = self.header.length - 1
+        # the first two octets of the image header are its length, little-endian
+        hlen = min(max(self.bytes_to_int(packet[:2], 'little'), 4), blen)
+        self._imghdr = bytearray(packet[:hlen])
+        del packet[:hlen]
 
-        self.image = packet[:(self.header.length - 17)]
-        del packet[:(self.header.length - 17)]
+        if len(self._imghdr) >= 4:
+            self.version = self._imghdr[2]
+            self.iencoding = self._imghdr[3]
+
+        self.image = packet[:(blen - hlen)]
+        del packet[:(blen - hlen)]
